@@ -39,7 +39,9 @@ ASSUMPTIONS_COMMON = [
     "A4 fixed-shape numpy arrays expanded exactly; numpy functions per pyvc/models/numpy_model.py (TRUSTED)",
     "A5 single-threaded, no re-entrancy",
     "callee bodies inside quansino are inlined (symbolically executed), not abstracted by contracts; externals (numpy, ASE, scipy, networkx, json, files, rng) are TRUSTED contracts in pyvc/models",
-    "the AST interpreter pyvc/interp.py implements Python's semantics for the constructs it accepts (cross-checked against CPython by the native differential, bounded)",
+    "the AST interpreter pyvc/interp.py implements Python's semantics for the constructs it accepts (cross-checked against CPython on the closed snippets of tools/conformance_interp.py in setup.sh, and by the native replays; tested, not proved)",
+    "the trusted models are TESTED against the real libraries on every setup (tools/conformance_numpy.py, conformance_arrays.py: numpy; tools/conformance_ase.py: ASE Atoms with FixAtoms/FixCom, Cell.volume, calculator cache protocol); a model may answer 'out of reach', a different answer fails setup.sh; they remain assumptions",
+    "numpy basic indexing / .T / reshape / ravel / diagonal return VIEWS that share elements with their base (pyvc/values.py:ViewData); stores convert to the element type of the array (truncation into integer arrays); other dtype effects (overflow, float32 precision) are not modelled",
 ]
 
 
@@ -443,14 +445,16 @@ def main():
             import tempfile
             rehearsal = {"changes": {}, "missed": []}
             sdir = os.path.join(HERE, "seeded")
-            for mid in sorted(x for x in (os.listdir(sdir) if os.path.isdir(sdir) else []) if x.startswith(prop + "_") and os.path.isfile(os.path.join(sdir, x, "patch.diff"))):
+            mids = sorted(x for x in (os.listdir(sdir) if os.path.isdir(sdir) else []) if x.startswith(prop + "_") and os.path.isfile(os.path.join(sdir, x, "patch.diff")))
+
+            def rehearse(mid):
                 d = tempfile.mkdtemp(prefix="rehearse_")
                 try:
                     shutil.copytree("/repo/src", os.path.join(d, "src"))
                     pr = subprocess.run(["patch", "-p1", "-s", "-i", os.path.join(sdir, mid, "patch.diff")], cwd=d, capture_output=True, text=True)
                     if pr.returncode:
                         rehearsal["changes"][mid] = "patch no longer applies"
-                        continue
+                        return
                     env = dict(os.environ, PYVC_SRC=os.path.join(d, "src"), PYVC_EVIDENCE_DIR=os.path.join(".run", "evidence_mut", mid), PYVC_NO_REHEARSAL="1")
                     r = subprocess.run([sys.executable, os.path.abspath(__file__), prop, "--tier", "quick"], cwd=HERE, env=env, capture_output=True, text=True, timeout=3600)
                     ded = sum(1 for l in r.stdout.splitlines() if l.startswith("VIOLATION") and "bounded-standin:" not in l)
@@ -463,6 +467,10 @@ def main():
                     rehearsal["changes"][mid] = "timeout"
                 finally:
                     shutil.rmtree(d, ignore_errors=True)
+            import concurrent.futures as cf
+            with cf.ThreadPoolExecutor(4) as ex:         # four scratch copies at a time (each is its own process)
+                list(ex.map(rehearse, mids))
+            rehearsal["missed"].sort()
     samples = []
     for o in obs[:3] + [o for o in obs if o.kind == "ensures"][:3]:
         samples.append({"obligation": o.name, "kind": o.kind, "status": o.status, "backend": o.backend,
